@@ -1033,6 +1033,23 @@ def _server_check(prop, tier, selftest, mc_cfgs, corrupt):
     tr = tlc_trace("Trace_Server", out, boundary=is_reset, min_per_shard=30)
     res.add_trace(tr)
     server_collect(prop, res, tr)
+    # conformance with the ACTIONS of Server.tla, scenario by scenario (drift only)
+    sc = tlc_scenarios("Trace_ServerModel", "Trace_ServerModel.cfg", out, is_reset)
+    explained = [x for x in sc if not x.get("skipped") and x.get("reached") == x.get("records")]
+    stuck = [x for x in sc if not x.get("skipped") and x.get("reached") != x.get("records")]
+    for x in sc:
+        res.states += x.get("states", 0)
+        res.transitions += x.get("transitions", 0)
+    res.extra["action_level_conformance"] = {
+        "scenarios_fully_explained_by_Server_tla": len(explained), "scenarios_not_explained": len(stuck),
+        "meaning": "every request = Start ; Step* ; response with the recorded status, TaskStep interleaved where TLC needs it; at observed quiescence the model has no task "
+                   "left and its documents / accounts equal the database snapshot",
+        "not_explained": [{"scenario": x["id"], "reached": x.get("reached"), "records": x.get("records"),
+                           "stuck_at": {k: v for k, v in (x.get("stuck_at") or {}).items() if k in ("id", "kind", "op", "args", "status", "p")}, "error": x.get("error", "")[-200:]} for x in stuck][:10]}
+    for x in stuck:
+        res.drift.append({"scenario": x["id"], "what": "not explained by the actions of Server.tla beyond record %s" % x.get("reached")})
+    res.extra["drift_count"] = len(res.drift)
+    log("Server.tla action-level conformance: %d scenarios explained, %d not" % (len(explained), len(stuck)))
     res.assumptions = ["TLC evaluates AdfSem / AdfSyntax / GraphOK correctly", "the stub implements the subset of MongoDB semantics the server relies on (equality filters, $set, "
                        "replacement, unique index); unknown commands are reported", "cookies are opaque bearer tokens held by a well-behaved client (one jar per principal)",
                        "the 120 s compute timeout and cookie expiry are covered by the model only", "cryptographic strength is not assessed"]
